@@ -29,6 +29,8 @@ class Row:                       # row of a transition_table
     defer: bool = False          # action is front::Defer
     gid: int = -1
     aid: int = -1
+    gexpr: object = None         # guard expression over named atoms: 'G1' | ('not', x) | ('and', x, y) | ('or', x, y)
+    aseq: object = None          # list of named actions, run in written order
 
 
 @dataclass
@@ -79,6 +81,9 @@ class Zoo:
     menu: List[Tuple[str, str, str]] = field(default_factory=list)  # (api, evt, 'local'|'root'); api: pe|eq|df
     exit_conv: List[str] = field(default_factory=list)  # events constructible from any other event (exit point events)
     configs: List[str] = field(default_factory=lambda: ['b', 'bc', 'bq', 'b11', 'm', 'mf', 'mc'])
+    atoms_g: List[str] = field(default_factory=list)     # named guard atoms (ids 101..)
+    atoms_a: List[str] = field(default_factory=list)     # named actions (ids 101..)
+    frontend: str = 'functor'    # functor | basic | basic2 | puml
     cxx: str = '17'
     no_exceptions: bool = False
 
@@ -96,6 +101,8 @@ class Zoo:
 
     def finalize(self):
         self.eid = {e: i + 1 for i, e in enumerate(self.events)}
+        self.gatom = {g: 101 + i for i, g in enumerate(self.atoms_g)}
+        self.aatom = {a: 101 + i for i, a in enumerate(self.atoms_a)}
         mid = 0
         sid = 1
         gid = 1
@@ -112,10 +119,14 @@ class Zoo:
                 s.sid = sid
                 sid += 1
             for r in m.rows:
-                if r.g:
+                if r.gexpr is not None:
+                    r.g = True
+                elif r.g:
                     r.gid = gid
                     gid += 1
-                if r.a and not r.defer:
+                if r.aseq is not None:
+                    r.a = True
+                elif r.a and not r.defer:
                     r.aid = aid
                     aid += 1
             for s in m.states:
